@@ -1573,6 +1573,22 @@ impl<W: Write> Exec<W> {
             let dbg = guarded("debug", panics, || format!("{:?}", id)).unwrap_or_default();
             let disp = guarded("display", panics, || format!("{}", id)).unwrap_or_default();
             let back = guarded("deserialize", panics, || serde_json::from_str::<NodeId>(&js).ok().map(|x| x.raw())).flatten();
+            // the same JSON through the other serde_json entry points (owned value, reader, byte slice)
+            let back_value = guarded("deserialize_value", panics, || {
+                serde_json::from_str::<Value>(&js).ok().and_then(|v| serde_json::from_value::<NodeId>(v).ok()).map(|x| x.raw())
+            })
+            .flatten();
+            let back_reader = guarded("deserialize_reader", panics, || serde_json::from_reader::<_, NodeId>(js.as_bytes()).ok().map(|x| x.raw())).flatten();
+            let back_slice = guarded("deserialize_slice", panics, || serde_json::from_slice::<NodeId>(js.as_bytes()).ok().map(|x| x.raw())).flatten();
+            // as a map key and inside a larger document
+            let as_key = guarded("map_key", panics, || {
+                let mut m = std::collections::HashMap::new();
+                m.insert(*id, 1u8);
+                let doc = serde_json::to_string(&m).unwrap_or_default();
+                let back: Option<std::collections::HashMap<NodeId, u8>> = serde_json::from_str(&doc).ok();
+                (doc, back.map(|b| b.contains_key(id)).unwrap_or(false))
+            });
+            let (key_doc, key_back) = as_key.unwrap_or_default();
             let from_arr = NodeId::from(raw).raw();
             let new_ = NodeId::new(&raw).raw();
             let eq_raw = *id == raw;
@@ -1584,7 +1600,10 @@ impl<W: Write> Exec<W> {
             let mut h2 = DefaultHasher::new();
             NodeId::new(&raw).hash(&mut h2);
             json!({"raw": bytes_json(&raw), "as_ref": bytes_json(&as_ref), "json": chars_json(&js), "debug": chars_json(&dbg),
-                   "display": chars_json(&disp), "back": opt(back, |b| bytes_json(&b)), "from_arr": bytes_json(&from_arr),
+                   "display": chars_json(&disp), "back": opt(back, |b| bytes_json(&b)),
+                   "back_value": opt(back_value, |b| bytes_json(&b)), "back_reader": opt(back_reader, |b| bytes_json(&b)),
+                   "back_slice": opt(back_slice, |b| bytes_json(&b)), "key_doc": chars_json(&key_doc), "key_back": key_back,
+                   "from_arr": bytes_json(&from_arr),
                    "new": bytes_json(&new_), "eq_raw": eq_raw, "ne_other": ne_other, "copy_eq": *id == id.clone(),
                    "hash_eq": h1.finish() == h2.finish()})
         };
@@ -1624,6 +1643,14 @@ impl<W: Write> Exec<W> {
                 let text = jstr(get(step, "text"));
                 m.insert("text".into(), chars_json(&text));
                 let r = guarded("deserialize", &mut panics, || serde_json::from_str::<NodeId>(&text));
+                let via_value = guarded("deserialize_value", &mut panics, || {
+                    serde_json::from_str::<Value>(&text).ok().map(|v| serde_json::from_value::<NodeId>(v).ok().map(|x| x.raw()))
+                })
+                .flatten();
+                let via_reader = guarded("deserialize_reader", &mut panics, || serde_json::from_reader::<_, NodeId>(text.as_bytes()).ok().map(|x| x.raw())).flatten();
+                // via_value: [] = the text is not JSON at all; [[]] = JSON but refused; [[id]] = accepted
+                m.insert("via_value".into(), match via_value { None => json!([]), Some(None) => json!([[]]), Some(Some(b)) => json!([[bytes_json(&b)]]) });
+                m.insert("via_reader".into(), opt(via_reader, |b| bytes_json(&b)));
                 match r {
                     Some(Ok(id)) => {
                         m.insert("ok".into(), json!(true));
